@@ -519,6 +519,10 @@ impl<T, R> RequestMessageDecoder<T, R> {
 
 const HEADER_INIT_LEN: usize = 32;
 
+/// Upper bound on the capacity reserved ahead of the data on the strength of a length read from the wire
+/// (the buffer still grows as the bytes actually arrive).
+const MAX_RESERVE: usize = 64 * 1024;
+
 /// Error type for the protocol decoders.
 #[derive(Error, Debug)]
 pub enum MessageDecodeError {
@@ -576,7 +580,7 @@ where
                     let body_len_and_tag = header.get_u64();
                     let tag = (body_len_and_tag & OP_MASK) >> OP_SHIFT;
                     if src.remaining() < HEADER_INIT_LEN + node_len + lane_len {
-                        src.reserve(node_len + lane_len);
+                        src.reserve((node_len + lane_len).min(MAX_RESERVE));
                         break Ok(None);
                     }
                     src.advance(HEADER_INIT_LEN);
@@ -730,7 +734,7 @@ impl Decoder for RawResponseMessageDecoder {
         let body_len = (body_len_and_tag & !OP_MASK) as usize;
         let required = HEADER_INIT_LEN + node_len + lane_len + body_len;
         if src.remaining() < required {
-            src.reserve(required - src.remaining());
+            src.reserve((required - src.remaining()).min(MAX_RESERVE));
             return Ok(None);
         }
         src.advance(HEADER_INIT_LEN);
@@ -777,7 +781,7 @@ impl Decoder for RawRequestMessageDecoder {
         let body_len = (body_len_and_tag & !OP_MASK) as usize;
         let required = HEADER_INIT_LEN + node_len + lane_len + body_len;
         if src.remaining() < required {
-            src.reserve(required);
+            src.reserve(required.min(MAX_RESERVE));
             return Ok(None);
         }
         src.advance(HEADER_INIT_LEN);
